@@ -331,6 +331,51 @@ inline void run(Ctx& C) {
       C.end();
     }
   }
+  // ---- 4b. the same bytes at every offset of a longer string (the escaper may batch its output): pad x 'x' + bytes + 'y'
+  {
+    std::vector<size_t> pads;
+    for (size_t p = 0; p <= 70; p++) pads.push_back(p);
+    for (size_t p : std::vector<size_t>{125, 126, 127, 128, 253, 254, 255, 256, 509, 510, 511, 512, 1021, 1022, 1023}) pads.push_back(p);
+    const char specials[] = {'"', '\\', '\b', '\f', '\n', '\r', '\t', '\0', 'a', char(0x80), char(0x7f), '/'};
+    for (size_t pad : pads) {
+      for (size_t si = 0; si < sizeof specials; si++) {
+        for (int dbl = 0; dbl < 2; dbl++) {
+          for (int use = 0; use < 2; use++) {
+            if (!C.take()) continue;
+            std::string body(size_t(dbl + 1), specials[si]);
+            std::string str = std::string(pad, 'x') + body + "y";
+            C.begin("bytes-pad:pad=" + std::to_string(pad) + "|bytes=" + verif::hex(body) + (use ? "|use=key" : "|use=value"));
+            JsonDocument doc;
+            std::string want;
+            if (use == 0) {
+              doc.set(str);
+              want = "\"" + refEscape(str) + "\"";
+            } else {
+              doc[str] = 1;
+              want = "{\"" + refEscape(str) + "\":1}";
+            }
+            std::string text;
+            size_t n1 = serializeJson(doc, text);
+            if (text != want) C.fail("escape", "text differs from the reference escaper at pad " + std::to_string(pad));
+            if (n1 != text.size() || measureJson(doc) != n1) C.fail("escape-count", "returned count != bytes");
+            std::string pretty;
+            serializeJsonPretty(doc, pretty);
+            if (pretty.find(refEscape(str)) == std::string::npos) C.fail("escape", "pretty text does not contain the escaped string");
+            for (int sized = 0; sized < 2; sized++) {
+              DeserializationError::Code code;
+              std::string got, why;
+              bool ok = parseOne(text, use ? 4 : 0, sized, code, got, why);
+              if (!ok) C.fail("bytes-roundtrip", std::string("code=") + DeserializationError(code).c_str() + " " + why);
+              else if (got != str) C.fail("bytes-roundtrip", "round trip differs at pad " + std::to_string(pad));
+            }
+            C.nontrivial();
+            C.end();
+          }
+        }
+      }
+    }
+  }
+  C.bound("12 bytes (the rewritten ones, a plain one, 0x7f, 0x80, '/') alone and doubled behind 0..70, 125..128, 253..256, 509..512, 1021..1023 padding bytes, as value and key");
   C.bound(T ? "all 65536 code units x 3 casings x 5 positions; every non-surrogate code unit in a document that already pools its prefix; all 2^20 surrogate pairs; all 256+65536 byte strings as value and key"
             : "all 65536 code units x 3 casings x 5 positions; every non-surrogate code unit in a document that already pools its prefix; 124x124 surrogate pair grid; all 256+65536 byte strings as value and key");
 }
